@@ -104,6 +104,8 @@ def build_candset(spec):
     for c, vals in (spec.get('extra') or {}).items():
         data[c] = pd.Series(vals)
         cols.append(c)
+    if spec.get('no_id'):
+        cols = cols[1:]
     df = pd.DataFrame(data, columns=cols)
     idx = spec.get('index')
     if idx is not None and n:
